@@ -72,6 +72,36 @@ func c07Spin(n int) {
 	}
 }
 
+// c07SlowSF is a pass-through SingleFlight that yields a scripted number of times before and after the real
+// call. ResourceManager holds its flight group behind the SingleFlight interface; any implementation may
+// be slow, so this only widens the set of schedules (the window between entering GetResource and joining
+// the flight, and between leaving the flight and returning), never the semantics.
+type c07SlowSF struct {
+	inner SingleFlight
+	spins []int
+	n     atomic.Int64
+}
+
+func (s *c07SlowSF) delay() {
+	if len(s.spins) > 0 {
+		c07Spin(s.spins[int(s.n.Add(1))%len(s.spins)])
+	}
+}
+
+func (s *c07SlowSF) Do(key string, fn func() (any, error)) (any, error) {
+	s.delay()
+	v, err := s.inner.Do(key, fn)
+	s.delay()
+	return v, err
+}
+
+func (s *c07SlowSF) DoEx(key string, fn func() (any, error)) (any, bool, error) {
+	s.delay()
+	v, f, err := s.inner.DoEx(key, fn)
+	s.delay()
+	return v, f, err
+}
+
 // c07RunSection executes one section on the real code and returns the observation per op line.
 func c07RunSection(cfg verifh.Cfg, ops []string) []string {
 	mode := cfg.Str("mode", "sf")
@@ -102,6 +132,13 @@ func c07RunSection(cfg verifh.Cfg, ops []string) []string {
 		freeWg  sync.WaitGroup
 		allWg   sync.WaitGroup
 	)
+	if sfd := cfg.Str("sfd", ""); sfd != "" && sfd != "-" {
+		slow := &c07SlowSF{inner: rm.singleFlight}
+		for _, f := range strings.Split(sfd, ",") {
+			slow.spins = append(slow.spins, verifh.Atoi(f))
+		}
+		rm.singleFlight = slow
+	}
 	heldKeys := map[int]bool{}
 	for _, c := range calls {
 		if c.hold {
@@ -291,7 +328,7 @@ func c07RunSection(cfg verifh.Cfg, ops []string) []string {
 
 func c07Gen(r *verifh.Rng) []verifh.Section {
 	var secs []verifh.Section
-	nsec := verifh.Scale(1200, 10000)
+	nsec := verifh.Scale(400, 10000)
 	for i := 0; i < nsec; i++ {
 		mode := "sf"
 		switch x := r.Intn(10); {
@@ -357,7 +394,20 @@ func c07Gen(r *verifh.Rng) []verifh.Section {
 					id, gi, key, ex, pre, yield, serr, hold))
 			}
 		}
-		secs = append(secs, verifh.Section{Cfg: fmt.Sprintf("mode=%s g=%d k=%d procs=%d", mode, g, k, procs), Ops: ops})
+		cfg := fmt.Sprintf("mode=%s g=%d k=%d procs=%d", mode, g, k, procs)
+		if mode == "rm" {
+			// delays between entering GetResource and the flight (and after it): 1..4 yield counts, dealt round-robin
+			sfd := "-"
+			if r.Chance(3, 4) {
+				var ds []string
+				for j, n := 0, r.Range(1, 4); j < n; j++ {
+					ds = append(ds, fmt.Sprint(r.Pick(0, 0, 1, 2, 5, 10, 20, 40, 80)))
+				}
+				sfd = strings.Join(ds, ",")
+			}
+			cfg += " sfd=" + sfd
+		}
+		secs = append(secs, verifh.Section{Cfg: cfg, Ops: ops})
 	}
 	return secs
 }
